@@ -8,7 +8,8 @@ One line = one batched cache read against a prepared cache state:
   <kind> cfg=… st=<H|P|F|A per key id> vk=<v|n|e|a per key id> keys=<ids> kd=<destination per key id>
 
 kind: `mget`/`jmget` (DoCache on MGET / JSON.MGET), `multi` (DoMultiCache, stride-5), `multis`
-(DoMultiCache, every command with a static TTL, stride-2). `st`: H cached, P in flight (will
+(DoMultiCache, every command with a static TTL, stride-2), `hmget`/`hjmget` (helper.go MGetCache /
+JsonMGetCache: DoMultiCache of GET / JSON.GET plus the key → result map). `st`: H cached, P in flight (will
 succeed), F in flight (will fail), A absent. `vk`: what the server answers for the key: v a value,
 n null, e an error reply, a "the transaction holding it is discarded".
 
@@ -123,6 +124,39 @@ def multiModel (e : Ep) (skip : Bool) : String :=
   | some res => s!"rw={rw} r={join (res.map (descRes true))}"
   | none => s!"rw={rw} panic"
 
+/-- helper.go `doMultiCache` on top of `DoMultiCache`: the first non-Redis error fails the call,
+    otherwise `ret[keys[i]] = resps[i].val` (read back per position) -/
+def helperModel (e : Ep) : String :=
+  let reply := e.reply
+  let abort : Nat → Bool := fun k => e.kind k == 'a'
+  let dest := e.keys.map fun k => e.kd.getD k 0
+  let run1 (cs : List Nat) := multiRun false false (e.ent false) cs (ownStd false reply abort) (serveStd reply abort none)
+  let run (_ : Nat) (cs : List Nat) : List Res := (run1 cs).2.getD []
+  let order := (dedup dest).mergeSort (fun a b => decide (a ≤ b))
+  let wires := order.filterMap fun d =>
+    let fetched := (run1 (cCommands dest e.keys d)).1.filterMap fun
+      | .cmd c => some c
+      | _ => none
+    if fetched.isEmpty then none else some s!"{d}:{ids fetched}"
+  let rw := if wires.isEmpty then "-" else ";".intercalate wires
+  match batched Res.empty dest e.keys order run with
+  | none => s!"rw={rw} panic"
+  | some res =>
+    match res.find? (fun r => match r.err with | some (.redis _) => false | some _ => true | none => false) with
+    | some r => s!"rw={rw} err={descRes true r}"
+    | none =>
+      -- the map: a later position with the same key overwrites an earlier one (same key, same value)
+      let kv := e.keys.zip res
+      let look (k : Nat) : Res := ((kv.reverse.find? fun p => p.1 == k).map (·.2)).getD Res.empty
+      s!"rw={rw} r={join (e.keys.map fun k => descRes true ⟨(look k).val, none⟩)}"
+
+def helperSpec (e : Ep) : String :=
+  let abort : Nat → Bool := fun k => e.kind k == 'a'
+  let want := e.keys.map (Spec.expected false (e.ent false) (outStd false e.reply abort))
+  match want.find? (fun r => match r.err with | some (.redis _) => false | some _ => true | none => false) with
+  | some r => s!"err={descRes false r}"
+  | none => s!"r={join (want.map (descRes false))}"
+
 def multiSpec (e : Ep) (skip : Bool) : String :=
   let abort : Nat → Bool := fun k => !skip && e.kind k == 'a'
   let want := e.keys.map (Spec.expected false (e.ent skip) (outStd skip e.reply abort))
@@ -141,6 +175,8 @@ def step (_ : Unit) (ws : List String) : Unit × String :=
       | "multis" => ((), multiModel e true)
       | "!multi" => ((), multiSpec e false)
       | "!multis" => ((), multiSpec e true)
+      | "hmget" | "hjmget" => ((), helperModel e)
+      | "!hmget" | "!hjmget" => ((), helperSpec e)
       | _ => ((), "bad-op")
   | _ => ((), "bad-op")
 
